@@ -86,6 +86,15 @@ func finalize(out *Outcome) *Outcome {
 	return out
 }
 
+func openKeyList() []string {
+	var l []string
+	for k := range openKeys {
+		l = append(l, k)
+	}
+	sort.Strings(l)
+	return l
+}
+
 func safeExec(p Prop, c *Case, wrap func(Prop, *Case) *Outcome) (out *Outcome) {
 	atomic.StoreInt64(&curExecStart, time.Now().UnixNano())
 	defer atomic.StoreInt64(&curExecStart, 0)
@@ -319,6 +328,7 @@ func handleViolation(p Prop, c *Case, out *Outcome, a WorkerArgs) (*ViolationRec
 		}
 		final := c.Clone()
 		final.Violation = out.V
+		final.OpenKeys = openKeyList()
 		final.Flaky = fmt.Sprintf("reproduced in %d of 13 re-executions: the outcome depends on Go map iteration order inside the implementation", repro+1)
 		path := filepath.Join(a.ReplayDir, fmt.Sprintf("%s-%d-%d.json", a.Prop, a.Seed, c.Run))
 		b, _ := json.MarshalIndent(final, "", " ")
@@ -423,6 +433,7 @@ func handleViolation(p Prop, c *Case, out *Outcome, a WorkerArgs) (*ViolationRec
 	}
 	final := best.Clone()
 	final.Violation = bestOut.V
+	final.OpenKeys = openKeyList()
 	if final.Violation.Key == "" {
 		final.Violation.Key = classify(p, final, bestOut.V)
 	}
@@ -454,6 +465,10 @@ func Replay(path string, wrap func(Prop, *Case) *Outcome) int {
 		return 2
 	}
 	want := c.Violation
+	openKeys = map[string]bool{}
+	for _, k := range c.OpenKeys {
+		openKeys[k] = true
+	}
 	out := safeExec(p, &c, wrap)
 	if c.Flaky != "" && want != nil {
 		for i := 0; i < 60 && (out.V == nil || out.V.Inv != want.Inv); i++ {
